@@ -39,7 +39,7 @@ AdjOf(d, id)    == {k \in AdjFields(d) : id \in {x.id : x \in AdjLeaves(d.named[
 NoOpen == [k |-> 0, p |-> 0, filled |-> <<>>, words |-> <<>>]
 GInitSt(d) == [acc |-> [i \in {x.id : x \in GLeaves(d)} |-> <<>>], pos |-> <<>>,
                blocks |-> [k \in AdjFields(d) |-> <<>>], open |-> NoOpen, pending |-> "",
-               posOnly |-> FALSE, dead |-> "", help |-> FALSE, n |-> 0]
+               posOnly |-> FALSE, dead |-> "", help |-> FALSE, n |-> 0, recent |-> 0, cut |-> 0, hp |-> <<>>]
 
 GKill(gs, why) == [gs EXCEPT !.dead = IF @ = "" THEN why ELSE @]
 FilledIds(gs)  == {gs.open.filled[i].id : i \in DOMAIN gs.open.filled}
@@ -58,7 +58,8 @@ Close(d, gs) ==
   ELSE IF Complete(d, gs)
        THEN [gs EXCEPT !.blocks[gs.open.k] = Append(@, [filled |-> gs.open.filled, words |-> gs.open.words]),
                        !.open = NoOpen]
-       ELSE [GKill(gs, "block_cut") EXCEPT !.open = NoOpen]
+       ELSE [GKill(gs, "block_cut") EXCEPT !.open = NoOpen,
+                                            !.cut = IF @ = 0 /\ d.named[gs.open.k].head.kind = "cmd" THEN gs.open.k ELSE @]
 AutoClose(d, gs) == IF gs.open.k # 0 /\ Full(d, gs) THEN Close(d, gs) ELSE gs
 
 GAcc(gs, id, v)  == [gs EXCEPT !.acc[id] = Append(@, [v |-> v, p |-> gs.n])]
@@ -92,13 +93,15 @@ GName(d, gs, n, hasv, v) ==
 CanEnter(d, gs, k) ==
   /\ \A j \in DOMAIN d.named : j > k => \A it \in FieldLeaves(d.named[j]) : gs.acc[it.id] = <<>>
   /\ (d.named[k].arity \in {"one", "opt"} => gs.blocks[k] = <<>>)
+\* a repeated occurrence of a single-use option is an item nobody claimed
+NoSurplus(d, gs) == \A k \in DOMAIN d.named : (IsLeaf(d.named[k]) /\ SingleUse(d.named[k])) => Len(gs.acc[d.named[k].id]) <= 1
 GWord(d, gs, w) ==
   IF gs.open.k # 0 /\ Len(gs.open.words) < Len(PosMembers(d.named[gs.open.k]))
   THEN AutoClose(d, [gs EXCEPT !.open.words = Append(@, w)])
   ELSE LET s1 == Close(d, gs)  ks == CmdHeadOf(d, w) IN
        \* the name of an adjacent subcommand opens a block, provided it is the first item the level has
        \* not claimed (positional words typed before it are still unclaimed when the command is looked for)
-       IF ks # {} /\ s1.pos = <<>> /\ s1.dead = "" /\ CanEnter(d, s1, CHOOSE k \in ks : TRUE)
+       IF ks # {} /\ s1.pos = <<>> /\ s1.dead = "" /\ CanEnter(d, s1, CHOOSE k \in ks : TRUE) /\ NoSurplus(d, s1)
        THEN AutoClose(d, [s1 EXCEPT !.open = [k |-> CHOOSE k \in ks : TRUE, p |-> s1.n, filled |-> <<>>, words |-> <<>>]])
        ELSE IF d.tail.kind = "pos" THEN [s1 EXCEPT !.pos = Append(@, [w |-> w, after |-> FALSE])]
        ELSE GKill(s1, "unexpected")
@@ -111,7 +114,7 @@ GPlain(d, gs, e) ==
     [] e.t \in {"eq", "glued"} -> GName(d, gs, e.s, TRUE, e.v)
     [] e.t = "word" -> GWord(d, gs, e.s)
 
-GStep(d, gs0, e) ==
+GStep0(d, gs0, e) ==
   LET gs == [gs0 EXCEPT !.n = @ + 1] IN
   IF gs.posOnly THEN [gs EXCEPT !.pos = Append(@, [w |-> e.txt, after |-> TRUE])]
   ELSE IF gs.pending # ""
@@ -119,8 +122,25 @@ GStep(d, gs0, e) ==
             IF e.t = "word"
             THEN (IF s1.open.k # 0 /\ gs.pending \in {m.id : m \in NamedMembers(d.named[s1.open.k])}
                   THEN Fill(d, s1, gs.pending, e.s) ELSE GAcc(s1, gs.pending, e.s))
-            ELSE GPlain(d, GKill(s1, "noarg"), e)
+            ELSE GPlain(d, Close(d, GKill(s1, "noarg")), e)   \* a name left without its value ends the block in front of it
        ELSE GPlain(d, gs, e)
+\* which adjacent subcommand the last item belonged to (0 = none): its block is still open, or the item
+\* completed it.  Help asked right there describes that command, and so does help asked anywhere after a
+\* block of the command was cut short (the command is the innermost one entered and it cannot finish);
+\* asked anywhere else it describes the level.
+GStep(d, gs0, e) ==
+  LET r == GStep0(d, gs0, e)
+      joined == /\ gs0.open.k # 0 /\ r.open.k = 0 /\ Len(r.blocks[gs0.open.k]) = Len(gs0.blocks[gs0.open.k]) + 1
+                /\ r.acc = gs0.acc /\ r.pos = gs0.pos /\ r.dead = gs0.dead /\ r.posOnly = gs0.posOnly /\ r.help = gs0.help
+      k == IF r.open.k # 0 THEN r.open.k ELSE IF joined THEN gs0.open.k ELSE 0
+      kc == IF k # 0 /\ d.named[k].head.kind = "cmd" THEN k ELSE 0
+      \* an argument name still waiting for its value is not part of the block: the block ends in front of it
+      was0 == IF gs0.pending # "" THEN 0 ELSE IF gs0.open.k # 0 THEN gs0.open.k ELSE gs0.recent
+      was1 == IF was0 # 0 /\ d.named[was0].head.kind = "cmd" THEN was0 ELSE 0
+      was == IF was1 # 0 THEN was1 ELSE r.cut
+      asked == r.help /\ ~gs0.help IN
+  [r EXCEPT !.recent = IF asked THEN 0 ELSE kc,
+            !.hp = IF asked /\ was # 0 /\ ~gs0.posOnly THEN <<d.named[was].head.names[1]>> ELSE @]
 
 RECURSIVE GRun(_, _, _)
 GRun(d, gs, l) == IF l = <<>> THEN gs ELSE GRun(d, GStep(d, gs, Head(l)), Tail(l))
@@ -248,7 +268,7 @@ GFinish(d, gs0, envv) ==
       ELSE [class |-> "stderr", why |-> [k |-> "surplus"]]
 
 GOutcome(d, gs, envv) ==
-  IF gs.help THEN [class |-> "stdout", kind |-> "help", path |-> <<>>] ELSE GFinish(d, gs, envv)
+  IF gs.help THEN [class |-> "stdout", kind |-> "help", path |-> gs.hp] ELSE GFinish(d, gs, envv)
 
 (* ------------------------------------------------------------------ state machine *)
 GAlphabet(d) ==
